@@ -96,3 +96,58 @@ func (e *Exec) decodedFacts(cc *callCtx, t types.Type, v Term, before, after Ter
 }
 
 var _ = fmt.Sprintf
+
+func init() {
+	// controller-runtime client: Get(ctx, key, obj) overwrites *obj with an arbitrary decoded object; on success the object
+	// read is the one asked for (its metadata.name is key.Name) — the API-server echo assumption used everywhere else.
+	get := func(e *Exec, cc *callCtx) Val {
+		errV := e.fresh(cc.f.prefix+"get_err", "Any")
+		if len(cc.args) < 4 {
+			return Val{T: cc.resT, Term: errV}
+		}
+		obj := cc.args[3]
+		pt, ok := e.boxType[obj.Term]
+		if !ok {
+			e.note("client.Get into an object of unknown dynamic type: not modelled")
+			return Val{T: cc.resT, Term: errV}
+		}
+		ref := e.boxOf[obj.Term]
+		e.decodeInto(cc, pt, ref)
+		el := deref(pt)
+		if el == nil {
+			return Val{T: cc.resT, Term: errV}
+		}
+		// name of the decoded object: field ObjectMeta.Name
+		n, so := e.heapName(el)
+		cell := Select(e.comp(cc.st, n, so), ref)
+		if st, ok := unalias(el).Underlying().(*types.Struct); ok {
+			si := e.reg.structOf(el)
+			for i := 0; i < st.NumFields(); i++ {
+				if st.Field(i).Name() != "ObjectMeta" {
+					continue
+				}
+				mt := st.Field(i).Type()
+				if ms, ok := unalias(mt).Underlying().(*types.Struct); ok {
+					msi := e.reg.structOf(mt)
+					for j := 0; j < ms.NumFields(); j++ {
+						if ms.Field(j).Name() == "Name" {
+							key := cc.args[2]
+							if ks, ok := unalias(key.T).Underlying().(*types.Struct); ok {
+								ksi := e.reg.structOf(key.T)
+								for k := 0; k < ks.NumFields(); k++ {
+									if ks.Field(k).Name() == "Name" {
+										e.assume(Implies(Eq(errV, "nil_any"), Eq(app(msi.fields[j], app(si.fields[i], cell)), app(ksi.fields[k], key.Term))),
+											"client.Get returns the object that was asked for (metadata.name == key.Name)")
+									}
+								}
+							}
+						}
+					}
+				}
+			}
+		}
+		return Val{T: cc.resT, Term: errV}
+	}
+	specTable["(sigs.k8s.io/controller-runtime/pkg/client.Reader).Get"] = get
+	specTable["(sigs.k8s.io/controller-runtime/pkg/client.Client).Get"] = get
+}
